@@ -32,7 +32,7 @@ KF_SIDE2 = 'scatj2-side-2-cannot-be-extended-to-8'
 def cells(tier, seed, salt=''):
     rnd = core.rng_for(seed, PROP, tier, salt)
     out = []
-    n = 320 if tier == 'quick' else 12000
+    n = 320 if tier == 'quick' else 100000
     for i in range(n):
         order = 1 if i % 2 == 0 else 2
         b = rnd.choice(BIORTS)
